@@ -231,6 +231,99 @@ def run (F : Forest) (first ticks endat : Nat) : List Rec × Final :=
       let rest := loop F endat k 2 start
       (r0 :: r1 :: rest.1, rest.2)
 
+/-! ## faults and side effects of acts: `runX`
+
+`run` above treats acts as silent.  `runX` adds what an act can do to the Boxer besides being logged:
+* **raise**: `raises` lists (event, tick) pairs; when that act / preact / goact runs at that tick it raises.
+  Boxer.run has no `try`, so the exception leaves the generator at once: the record is cut right after the
+  raising event and the run is over (`FinalX.raised`).
+* **set the end bag** (what `EndAct` does): `enders` lists events that set the flag whenever they run — in any
+  context, including preacts of a transition that is then refused.
+* **look at the Boxer**: every event also reports which box was `boxer.box` when it ran.  `self.box = dest` is
+  executed after the exdo and rexdo phases and before rendo/endo/redo (`switchAt`). -/
+
+/-- number of events of a loop pass that run before `self.box = dest` (all of them when nothing is accepted) -/
+def switchAt (F : Forest) (t active : Nat) : Nat :=
+  match scanPile F t active (pile F active) with
+  | .stay ev => (ev ++ redoL F (pile F active)).length
+  | .go ev _ q => (ev ++ (exdoL F q.exdos ++ rexdoL F q.rexdos)).length
+  | .exc ev => ev.length
+
+structure RecX where
+  tick : Nat
+  /-- `boxer.box` seen by the first `switch` events -/
+  pre : Option Nat
+  /-- `boxer.box` seen by the remaining events, and after the call when it completes -/
+  post : Option Nat
+  switch : Nat
+  events : List Event
+deriving Repr
+
+inductive FinalX where
+  | live | ret (b : Bool) | typeError | indexError | raised (e : Event) (tick : Nat)
+deriving DecidableEq, Repr
+
+/-- position of the first event of `evs` that raises at tick `t` -/
+def raiseIdx (raises : List (Event × Nat)) (t : Nat) : List Event → Option Nat
+  | [] => none
+  | e :: es => if raises.contains (e, t) then some 0 else (raiseIdx raises t es).map (· + 1)
+
+/-- cut a record at its first raising event (inclusive) -/
+def RecX.cut (raises : List (Event × Nat)) (r : RecX) : RecX × Option Event :=
+  match raiseIdx raises r.tick r.events with
+  | none => (r, none)
+  | some i => ({ r with events := r.events.take (i + 1) }, r.events[i]?)
+
+/-- `boxer.box` after the call: a record cut at or before its last pre-switch event never switched -/
+def RecX.after (r : RecX) (wasCut : Bool) : Option Nat :=
+  if wasCut && r.events.length ≤ r.switch then r.pre else r.post
+
+def setsEnd (enders : List Event) (evs : List Event) : Bool := evs.any (fun e => enders.contains e)
+
+def loopX (F : Forest) (endat : Nat) (enders : List Event) (raises : List (Event × Nat)) :
+    Nat → Nat → Nat → Bool → List RecX × FinalX
+  | 0, _, _, _ => ([], .live)
+  | k + 1, t, active, flag =>
+    if ended endat t || flag then
+      let full : RecX := ⟨t, some active, none, (endPass F t active).events.length, (endPass F t active).events⟩
+      match full.cut raises with
+      | (r, some e) => ([r], .raised e t)
+      | (r, none) => ([r], .ret true)
+    else
+      let p := pass F t active
+      let full : RecX := ⟨t, some active, p.1.active, switchAt F t active, p.1.events⟩
+      match full.cut raises with
+      | (r, some e) => ([r], .raised e t)
+      | (r, none) =>
+        match p.2 with
+        | none => ([r], .typeError)
+        | some a =>
+          let rest := loopX F endat enders raises k (t + 1) a (flag || setsEnd enders r.events)
+          (r :: rest.1, rest.2)
+
+def runX (F : Forest) (first ticks endat : Nat) (enders : List Event) (raises : List (Event × Nat)) :
+    List RecX × FinalX :=
+  if F.isEmpty then ([⟨0, none, none, 0, []⟩], .indexError)   -- list(self.boxes.values())[0]
+  else
+  let start := first - 1
+  let p := predo F 0 (pile F start)
+  let full0 : RecX := ⟨0, some start, if p.2 then some start else none, p.1.length, p.1⟩
+  match full0.cut raises with
+  | (r0, some e) => ([r0], .raised e 0)
+  | (r0, none) =>
+    if !p.2 then ([r0], .ret false)
+    else
+      match ticks with
+      | 0 => ([r0], .live)
+      | k + 1 =>
+        let full1 : RecX := ⟨1, some start, some start, 0, endoL F (pile F start) ++ redoL F (pile F start)⟩
+        match full1.cut raises with
+        | (r1, some e) => ([r0, r1], .raised e 1)
+        | (r1, none) =>
+          let rest := loopX F endat enders raises k 2 start
+            (setsEnd enders r0.events || setsEnd enders r1.events)
+          (r0 :: r1 :: rest.1, rest.2)
+
 /-! ## building the boxwork the way `Boxer.bx` does -/
 
 /-- raw description of one declared box: `over+1` (0 = top level), the 8 counts, preact masks, goacts -/
